@@ -80,7 +80,10 @@ func FromPlain(content []byte) string {
 			break
 		}
 		if utf8.RuneStart(b) {
-			content = content[:i]
+			// Drop the trailing bytes only when they are a cut-off rune.
+			if !utf8.FullRune(content[i:]) {
+				content = content[:i]
+			}
 			break
 		}
 	}
@@ -125,7 +128,7 @@ func latin(content []byte) string {
 
 func ascii(content []byte) bool {
 	for _, b := range content {
-		if textChars[b] != T {
+		if b >= 0x80 || textChars[b] != T {
 			return false
 		}
 	}
